@@ -181,6 +181,9 @@ func makeFixtures(dir string) (map[string]string, map[string]bool) {
 	put("pem-encrypted-fails", encPEM("EC PRIVATE KEY", bytes.Repeat([]byte{0x41}, 47)), false) // decrypts, but is no key
 	put("pem-clear-ok", pem.EncodeToMemory(&pem.Block{Type: "EC PRIVATE KEY", Bytes: der}), false)
 	put("pem-clear-fails", pem.EncodeToMemory(&pem.Block{Type: "EC PRIVATE KEY", Bytes: bytes.Repeat([]byte{0x41}, 47)}), false)
+	// unencrypted blocks that carry headers (only Proc-Type / DEK-Info make a block encrypted)
+	put("pem-clear-hdr-ok", pem.EncodeToMemory(&pem.Block{Type: "EC PRIVATE KEY", Headers: map[string]string{"Comment": "deployment key, do not share"}, Bytes: der}), false)
+	put("pem-clear-hdr-fails", pem.EncodeToMemory(&pem.Block{Type: "EC PRIVATE KEY", Headers: map[string]string{"Comment": "x"}, Bytes: bytes.Repeat([]byte{0x41}, 47)}), false)
 	// OpenPGP
 	ent, err := openpgp.NewEntity("secret entry", "", "se@example.com", &packet.Config{RSABits: 2048})
 	if err != nil {
